@@ -97,6 +97,7 @@ type op =
 | OAsync
 | OPoll
 | ODropFut
+| OWait
 
 type res =
 | RL
@@ -159,6 +160,7 @@ type pc =
 | DFix
 | DUnl
 | DLoad
+| WaitW
 
 type mstate = { locked : bool; hasq : bool; llock : nat option;
                 queue : nat list; narm : (nat -> wk option);
@@ -255,7 +257,9 @@ val after_llock : mstate -> nat -> lctx -> mstate
 
 val do_llswap : mstate -> nat -> lctx -> (mstate * mev) option
 
-val dispatch : mstate -> nat -> op list -> (mstate * mev) option
+val do_wait : mstate -> nat -> mch -> (mstate * mev) option
+
+val dispatch : mstate -> nat -> mch -> op list -> (mstate * mev) option
 
 val block_next : mstate -> nat -> mstate
 
